@@ -2,6 +2,7 @@ package main
 
 import (
 	"fmt"
+	"sort"
 	"go/types"
 	"strings"
 
@@ -33,6 +34,28 @@ func (fr *Frame) callValue(in ssa.CallInstruction, c *ssa.CallCommon, fv Val, ar
 	ex := fr.ex
 	name := calleeName(ex.prog, c)
 	rt := resultType(c)
+	// call-site assertions attached by the contract of the function under verification
+	if fr.top && ex.fc != nil && len(ex.fc.CallAsserts) > 0 {
+		site := fmt.Sprintf("%s#%d", name, fr.callOrd[in])
+		if cls := ex.fc.CallAsserts[site]; len(cls) > 0 {
+			cenv := fr.topEnv(fr.st)
+			cenv.old = ex.entry
+			if lc := fr.innermostLoopCtx(in.Block()); lc != nil {
+				cenv.loop = lc
+			}
+			for n, tv := range fr.localsAt(in) {
+				if _, ok := cenv.vars[n]; !ok {
+					cenv.vars[n] = tv
+				}
+			}
+			for _, cl := range cls {
+				g := fr.evalClause(cenv, cl)
+				ex.addOblig("assert@", site+":"+cl.Label, ex.prog.pos(in.Pos()), mkImp(fr.cur, g), cl.Src)
+				fr.assume(g)
+			}
+			ex.usedAsserts[site] = true
+		}
+	}
 	// builtins
 	if b, ok := c.Value.(*ssa.Builtin); ok {
 		return fr.builtin(in, b, c, args)
@@ -534,20 +557,6 @@ func (fr *Frame) applyContract(in ssa.CallInstruction, key string, fc *FuncContr
 			fr.assume(g)
 		}
 	}
-	// call-site assertions attached by the caller's contract
-	if fr.top && ex.fc != nil {
-		cenv := fr.topEnv(fr.st)
-		for n, tv := range fr.localsAt(in) {
-			if _, ok := cenv.vars[n]; !ok {
-				cenv.vars[n] = tv
-			}
-		}
-		for _, c := range ex.fc.CallAsserts[site] {
-			g := fr.evalClause(cenv, c)
-			ex.addOblig("assert@", site+":"+c.Label, ex.prog.pos(in.Pos()), mkImp(fr.cur, g), c.Src)
-			fr.assume(g)
-		}
-	}
 	old := fr.st.clone()
 	// havoc the frame
 	oldEnv := env.with(old)
@@ -649,11 +658,18 @@ func (fr *Frame) evalModLocs(env *Env, m Expr, fc *FuncContract, i int) (locs []
 func (fr *Frame) havocLoc(ml ModLoc) {
 	ex := fr.ex
 	if ml.Whole {
+		pre := strings.TrimSuffix(ml.Key, "*")
+		var ks []string
 		for k := range ex.hsort {
-			if strings.HasPrefix(k, strings.TrimSuffix(ml.Key, "*")) {
-				ex.havocKey(fr.st, k)
+			if strings.HasPrefix(k, pre) {
+				ks = append(ks, k)
 			}
 		}
+		sort.Strings(ks)
+		for _, k := range ks {
+			ex.havocKey(fr.st, k)
+		}
+		fr.st.wild = append(fr.st.wild, pre)
 		return
 	}
 	a := ex.get(fr.st, ml.Key, ml.Sort)
@@ -738,7 +754,8 @@ func (fr *Frame) inline(in ssa.CallInstruction, fn *ssa.Function, args []Val, bi
 	ex.inlined[fn.RelString(ex.prog.SSA.Pkg)] = true
 	nf := ex.newFrame(fn, fr)
 	if len(nf.loops) > 0 {
-		panic(oos("callee %s has loops and no contract", fn.RelString(ex.prog.SSA.Pkg)))
+		// loops of an inlined callee are over-approximated: everything they write is havocked
+		ex.abstr["loop in inlined callee "+fn.RelString(ex.prog.SSA.Pkg)+": its effects are havocked (no invariant)"] = true
 	}
 	for i, p := range fn.Params {
 		nf.vals[p] = args[i]
